@@ -118,6 +118,7 @@ const TOPOLOGIES: &[&str] = &[
     "clone-thread-panics",
     "fixture-verify",
     "thread-caught-then-continue",
+    "created-during-unwind",
 ];
 
 /// what the first panic message must contain
@@ -516,6 +517,25 @@ fn child(id: &str) {
             let _ = u.consume(1);
             eprintln!("SCENARIO-DID-NOT-PANIC");
         }
+        "created-during-unwind" => {
+            // cleanup code that runs while the thread unwinds creates (and drops) a mock of its own: like any other
+            // Unimock dropped on an unwinding thread it must stay silent, whatever its expectations
+            struct Cleanup(bool, usize);
+            impl Drop for Cleanup {
+                fn drop(&mut self) {
+                    let u = build("body-before", self.0);
+                    let clones: Vec<Unimock> = (0..self.1).map(|_| u.clone()).collect();
+                    if !self.0 {
+                        let _ = u.other();
+                    }
+                    drop(u);
+                    drop(clones);
+                }
+            }
+            let _cleanup = Cleanup(unmet, extra);
+            let u = build(point, unmet);
+            body(&u, point);
+        }
         "fixture-verify" => {
             // a test fixture / scope guard that finishes the mock explicitly from its destructor: while the thread
             // is unwinding, that explicit verification must stay as silent as a plain drop
@@ -578,11 +598,16 @@ fn scenarios() -> Vec<String> {
             for unmet in ["met", "unmet"] {
                 let extras: &[usize] = match *t {
                     "orig-only" | "clone-outlives" | "clone-other-thread" | "by-value" | "caught-then-continue"
-                    | "fixture-verify" | "thread-caught-then-continue" => &[0, 2],
+                    | "fixture-verify" | "thread-caught-then-continue" | "created-during-unwind" => &[0, 2],
                     _ => &[0],
                 };
                 for e in extras {
                     out.push(format!("{p}/{t}/{unmet}/{e}"));
+                }
+                // the same scenario with a stderr that rejects every write (ENOSPC): whatever the mock prints while
+                // the thread unwinds must not turn into a second panic
+                if matches!(*t, "orig-only" | "clone-dropped-first" | "foreign-thread") {
+                    out.push(format!("{p}/{t}/{unmet}/0/fullerr"));
                 }
             }
         }
@@ -616,11 +641,21 @@ fn run(args: &[String]) {
                     break;
                 }
                 let id = &list[i];
+                let fullerr = id.ends_with("/fullerr");
+                let child_id = id.trim_end_matches("/fullerr");
+                let child_stderr = if fullerr {
+                    match std::fs::OpenOptions::new().write(true).open("/dev/full") {
+                        Ok(f) => Stdio::from(f),
+                        Err(_) => Stdio::null(),
+                    }
+                } else {
+                    Stdio::piped()
+                };
                 let mut child = Command::new(&exe)
-                    .args(["child", id])
+                    .args(["child", child_id])
                     .env("RUST_BACKTRACE", "0")
                     .stdout(Stdio::null())
-                    .stderr(Stdio::piped())
+                    .stderr(child_stderr)
                     .spawn()
                     .expect("spawn");
                 let mut stderr = String::new();
@@ -661,6 +696,7 @@ fn run(args: &[String]) {
                     .unwrap_or_default();
                 let line = Obj::new()
                     .str("id", id)
+                    .boolean("fullerr", fullerr)
                     .raw("exit_code", code.map(|c| c.to_string()).unwrap_or("null".into()))
                     .raw("signal", signal.map(|c| c.to_string()).unwrap_or("null".into()))
                     .num("panics_reported", n_panics)
